@@ -2,7 +2,7 @@
 import re
 
 from .. import obs as O
-from .common import (Contract, ansi_values, history, run_cases, tier_sizes, safe_obs, settings_texts, small_scope_values,
+from .common import (trie_case, Contract, ansi_values, history, run_cases, tier_sizes, safe_obs, settings_texts, small_scope_values,
                      small_scope_on)
 from ..gen import gen_matchspec, gen_settings
 
@@ -151,6 +151,22 @@ def drive(ctx, mon, tier, only_case=None):
                         else:
                             t.unformat_matching(pat, **kw)
             ctx.extra['n_small_scope_values'] = nv
+            return
+        if case == 1:
+            tp = [('b', {}), ('[ab]', {'regex': True}), ('bc', {'count': 1}), ('.', {'regex': True, 'count': 2}), ('B', {}), ('', {})]
+
+            def visit(v, p):
+                for pat, kw in (tp if tier == 'thorough' else tp[:3]):
+                    for which in range(3):
+                        with mon.quiet():
+                            t = L.AnsiString(v)
+                        if which == 0:
+                            t.format_matching(pat, 'blue', **kw)
+                        elif which == 1:
+                            t.unformat_matching(pat, '[31', **kw)
+                        else:
+                            t.unformat_matching(pat, **kw)
+            trie_case(ctx, mon, tier, 2, 3, visit=visit)
             return
         profile = 'mixed' if rng.random() < 0.25 else 'wf'
         history(L, rng, ex, rng.randint(1, sz['nops']), sz['maxlen'], profile, WEIGHTS)
